@@ -20,4 +20,5 @@ open BsVerif.Dqe
 #print axioms C07_set_match_counterexample
 #print axioms C07_precedence
 #print axioms C07_print_parse_partial
+#print axioms C07_parse_slice
 #print axioms C07_precedence_deref_field
